@@ -123,7 +123,7 @@ PROPS = {
         timeout={"quick": 900, "thorough": 3600},
     ),
     "C12": dict(
-        lean_modules=["Liftbridge.Props.C12"],
+        lean_modules=["Liftbridge.Props.C12", "Liftbridge.Props.GoGroups"],
         gen_sources=["server/groups.go", "server/metadata.go"],
         go_pkg="./server", test="TestVerifC12",
         level="proof",
